@@ -77,6 +77,9 @@ def answer(cls, word, topo="C", rec=None, keep=None):
         return ["valid", "accessor-exc:" + type(e).__name__]
 
 
+_hooks = {}
+
+
 def resolve(classes, ref):
     """ref = index, or ['sub', index] for a subclass created on the spot, or ['sig', index, up, down] for a part
     type declared on the spot with its own signature — all of the latter under one and the same class name"""
@@ -89,6 +92,15 @@ def resolve(classes, ref):
         if ref[0] == "cut":          # the same type over another enzyme (only the cutter is redefined)
             import asm
             return type("Variant", (base,), {"cutter": asm.enzyme(ref[2])})
+        if ref[0] in ("hookparent", "hookkid"):
+            # a laboratory's catalogue mixin with a class-creation hook that does not chain to super(), placed before the
+            # kit type: the classes made under it are classes like any other
+            if ref[1] not in _hooks:
+                cat = type("Catalogued", (), {"__init_subclass__": classmethod(lambda cls_, **kw: None)})
+                _hooks[ref[1]] = type("LabEntry", (cat, base), {})
+            if ref[0] == "hookparent":
+                return _hooks[ref[1]]
+            return type("LabKid", (_hooks[ref[1]],), {"signature": (ref[2], ref[3])})
         if ref[0] == "char":
             # a laboratory's family of part types under one kit type: asked through `Family.characterize(record)`;
             # the candidates are its direct subclasses, in definition order
@@ -200,6 +212,9 @@ def check_case(ctx, case):
             def nm(x):
                 if isinstance(x, list) and x[0] in ("sig", "sigsame"):
                     return "part type 'Variant' {}/{} derived from {}".format(x[2], x[3], classes[x[1]].__name__)
+                if isinstance(x, list) and x[0] in ("hookparent", "hookkid"):
+                    return ("type under a non-chaining __init_subclass__ mixin derived from " + classes[x[1]].__name__
+                            if x[0] == "hookparent" else "subclass {}/{} of that type".format(x[2], x[3]))
                 if isinstance(x, list) and x[0] == "char":
                     return "characterize() of a family of {} part types derived from {}".format(len(x[2]), classes[x[1]].__name__)
                 if isinstance(x, list) and x[0] == "cut":
@@ -212,6 +227,8 @@ def check_case(ctx, case):
     refs = [h[0] for h in hist]
     ctx.note("history-len={}".format(min(len(hist), 6)))
     ctx.case(case, nontrivial=len({json.dumps(r) for r in refs}) > 1)
+    if any(isinstance(r, list) and r[0] in ("sig", "sigsame") and (r[2] != r[2].upper() or r[3] != r[3].upper()) for r in refs):
+        return          # a pattern letter in lower case is a literal: outside the model's pattern alphabet, oracle only
     if any(isinstance(r, list) and r[0] == "char" for r in refs):
         # model (`characterize_after_history`): whatever came before, the answer is the first accepting candidate —
         # the pure `characterize` of the typing model on the candidates' live structures
@@ -237,7 +254,7 @@ def check_case(ctx, case):
     def fields():
         out = {}
         for ref in refs:
-            if isinstance(ref, list) and ref[0] in ("sig", "sigsame", "cut"):
+            if isinstance(ref, list) and ref[0] in ("sig", "sigsame", "cut", "hookparent", "hookkid"):
                 cls = resolve(classes, ref)
             else:
                 cls = classes[ref[1]] if isinstance(ref, list) else classes[ref]
@@ -300,9 +317,15 @@ def run(ctx):
         a = rng.choice(sigbases)
         k = len(classes[a].signature[0])
         hist = []
-        for _ in range(rng.randint(2, 3)):
+        lowsig = rng.random() < 0.3
+        fixed_sig = (gen.rnd(rng, k), rng.choice(["N" * k, gen.rnd(rng, k)]))
+        for j_ in range(rng.randint(2, 3)):
             ref = ["sig", a, gen.rnd(rng, k), gen.rnd(rng, k)]
-            inst = inst_of(classes, ref, rng.choice([2, 5]), rng.getrandbits(32))
+            if lowsig:
+                # two types whose signatures differ only in letter case (a pattern letter in lower case is a literal)
+                ref = ["sig", a, fixed_sig[0] if j_ % 2 == 0 else fixed_sig[0].lower(),
+                       fixed_sig[1] if j_ % 2 == 0 else fixed_sig[1].lower()]
+            inst = inst_of(classes, [ref[0], ref[1], ref[2].upper(), ref[3].upper()], rng.choice([2, 5]), rng.getrandbits(32))
             hist.append([ref, gen.rot(inst + gen.rnd(rng, 6), rng.randrange(8))])
         if rng.random() < 0.5:
             hist.append([hist[0][0], hist[-1][1]])      # the first type asked about the last record
@@ -312,6 +335,19 @@ def run(ctx):
         inst = inst_of(classes, ref, 3, rng.getrandbits(32))
         ctx.guard(check_case, {"history": [[a, words[a]], [ref, gen.rot(inst + gen.rnd(rng, 5), rng.randrange(6))],
                                            [ref, words[a]]]})
+    # classes made under a mixin whose __init_subclass__ does not call super(): parent asked first, then its subclass
+    for _ in range(ctx.budget(25, 600)):
+        if not sigbases:
+            break
+        a = rng.choice(sigbases)
+        k = len(classes[a].signature[0])
+        kid = ["hookkid", a, gen.rnd(rng, k), gen.rnd(rng, k)]
+        try:
+            inst = inst_of(classes, ["sig", a, kid[2], kid[3]], rng.choice([2, 5]), rng.getrandbits(32))
+        except Exception:  # noqa
+            continue
+        w_kid = gen.rot(inst + gen.rnd(rng, 6), rng.randrange(8))
+        ctx.guard(check_case, {"history": [[["hookparent", a], words[a]], [kid, w_kid], [kid, words[a]]]})
     # automatic typing within a family whose types overlap (wildcard signatures): the type found for a record is the
     # first candidate that accepts it, whatever was characterised before
     for _ in range(ctx.budget(40, 800)):
